@@ -92,6 +92,11 @@ def ingestion_case(cid, typ, xs, arity, rng, splits=None):
             c.op('A', 8, pre)
         c.op('E', 8, mid + rest)
         regs.append((8, 'add+extend'))
+        c.op('N', 9)
+        if pre:
+            c.op('A', 9, pre)
+        c.op('ER', 9, mid + rest)
+        regs.append((9, 'add+extend_ref'))
     else:
         c.op('F', 5, pre)
         if mid + rest:
@@ -233,6 +238,42 @@ def shard(desc):
         cc = cat_cases('%s-cat%d' % (desc['name'], i), xs)
         cases.extend(cc.values())
         catplan.append(cc)
+    # long pieces (several thousand items in ONE extend call) onto a non-empty receiver
+    for i in range(desc.get('nlongpiece', 0)):
+        typ = rng.choice(SINGLE + PAIR)
+        ar = 2 if typ in PAIR else 1
+        n = rng.randint(4200, 9000)
+        xs, _ = gen.sequence(rng, n=n)
+        data = pair_values(rng, typ, n) if ar == 2 else xs
+        c, marks = ingestion_case('%s-%d' % (desc['name'], cid), typ, data, ar, rng, splits=(rng.randint(1, 12), rng.randint(12, 40)))
+        cid += 1
+        cases.append(c)
+        plan.append((c, marks, typ))
+        res.count('long_piece_cases')
+    # extend / add after the count was driven beyond 2^32 by repeated self-merging
+    for i in range(desc.get('nhuge', 0)):
+        typ = rng.choice([t for t in SINGLE + PAIR if t not in ('Min', 'Max')])
+        ar = 2 if typ in PAIR else 1
+        base = pair_values(rng, typ, 3) if ar == 2 else gen.sequence(rng, n=3)[0]
+        more = pair_values(rng, typ, 6) if ar == 2 else gen.sequence(rng, n=6)[0]
+        c = Case('%s-%d' % (desc['name'], cid), typ, meta={'n': 9, 'huge': True})
+        cid += 1
+        c.op('N', 0)
+        c.op('A', 0, base)
+        for _ in range(rng.choice([32, 33, 40])):
+            c.op('M', 0, 0)
+        regs = [(0, 'add')]
+        for r_, code, how in ((1, 'E', 'extend'), (2, 'ER', 'extend_ref')):
+            c.op('K', r_, 0)
+            c.op(code, r_, more[:2 * ar])
+            c.op(code, r_, more[2 * ar:])
+            regs.append((r_, how))
+        c.op('A', 0, more)
+        marks = [(c.op('O', r_), how) for r_, how in regs]
+        c.meta['marks'] = marks
+        cases.append(c)
+        plan.append((c, marks, typ))
+        res.count('huge_count_cases')
     # all split points for short sequences
     for i in range(desc.get('nshort', 0)):
         n = rng.randint(1, 5)
@@ -277,11 +318,12 @@ def run(tier, seed):
             nsh = common.NPROC * mult
             descs = [{'name': '%s%d' % (variant[0], s), 'variant': variant, 'binary': binary,
                       'nseq': max(1, int(nseq * frac) // nsh), 'nshort': max(1, int(nshort * frac) // nsh),
+                      'nlongpiece': 3, 'nhuge': 6,
                       'seed': seed * 1000003 + s * 7919 + sum(map(ord, variant))} for s in range(nsh)]
             total.merge(common.run_shards(shard, descs))
     except common.Inconclusive as e:
         total.inconclusive.append(str(e))
-    need = {'path_comparisons': 5000, 'estimate_checks': 2000, 'concatenate_comparisons': 2000, 'all_split_cases': 200}
+    need = {'long_piece_cases': 20, 'huge_count_cases': 40, 'path_comparisons': 5000, 'estimate_checks': 2000, 'concatenate_comparisons': 2000, 'all_split_cases': 200}
     for t in SINGLE + PAIR:
         need['cases_%s' % t] = 50
     return common.finish(PROP, tier, seed, total, RULE, t0, ASSUME, min_events=need,
